@@ -59,6 +59,7 @@ type Cluster struct {
 	zombies sync.WaitGroup
 
 	loggers sync.Map // *logging.Logger -> *shim.Inc
+	leaseCh   chan mon.Event
 	FatalSeen atomic.Int32
 	StallMaxNs atomic.Int64
 	stopStall chan struct{}
@@ -83,7 +84,46 @@ func New(m *mon.Monitor, root string, seed int64, o Options) *Cluster {
 		}
 	})
 	go c.stallDetector()
+	// lease watcher: right after every leadership start, sample everybody; another node that still reports the
+	// leader state with a valid lease at that moment means a leader was elected inside somebody's lease (C17)
+	c.leaseCh = make(chan mon.Event, 64)
+	prev := m.OnEvent
+	m.OnEvent = func(ev *mon.Event) {
+		if prev != nil {
+			prev(ev)
+		}
+		if ev.Kind == mon.KLogAppend && ev.Flag && len(ev.Ents) == 1 && ev.Ents[0].Type == 0 {
+			select {
+			case c.leaseCh <- *ev:
+			default:
+			}
+		}
+	}
+	go c.leaseWatcher()
 	return c
+}
+
+func (c *Cluster) leaseWatcher() {
+	for {
+		select {
+		case <-c.stopStall:
+			return
+		case ev := <-c.leaseCh:
+			for _, id := range c.IDs() {
+				if id == ev.Node {
+					continue
+				}
+				n := c.Node(id)
+				if n == nil || !n.IsUp() {
+					continue
+				}
+				s := n.Sample()
+				if s != nil && s.State == "leader" && s.LeaseValid && s.Term < ev.Ents[0].Term {
+					c.M.Emit(mon.Event{Kind: mon.KLeaseOverlap, Node: ev.Node, Term: ev.Ents[0].Term, Str: id, Idx: s.Term})
+				}
+			}
+		}
+	}
 }
 
 // FatalHandler is called (on the failing goroutine) for a fatal of a live incarnation, after the
